@@ -58,8 +58,11 @@ func up(s string) string { return strings.ToUpper(s[:1]) + s[1:] }
 
 // method names of an interface item
 func layMethods(it *layItem) []string {
-	if it.Short {
+	if it.Short && it.ID == "c1" {
 		return []string{"F", "G"}[:it.Nmeth]
+	}
+	if it.Short {
+		return []string{"H", "J"}[:it.Nmeth]
 	}
 	return []string{up(it.ID) + "Alpha", up(it.ID) + "Beta"}[:it.Nmeth]
 }
@@ -68,6 +71,8 @@ func layIntfName(it *layItem) string {
 	switch {
 	case it.Named:
 		return "Convergen"
+	case it.Marked && it.Short && !it.Doc:
+		return up(it.ID) // as short as a name gets
 	case it.Marked:
 		return "Conv" + up(it.ID)
 	case it.Lookalike:
@@ -674,7 +679,41 @@ func C11(c *core.Ctx) {
 	c.Set("rule", "declaration (var/func/type/const x doc / trailing / go:generate line in its doc) before, floating comment, converter interface (named without doc but with method docs / marked with doc), declaration after x package doc x build-constraint spelling (//go:build, // +build, both) x imports (none, used, used + blank) (22464 layouts, TLC Selection.tla); the output's declaration sequence with attached doc/trailing comments, package doc, forwarded method docs and absence of directives / notation lines / interface doc are compared with the model's output items. Distinct = distinct layouts")
 }
 
-func c11Deviation(r *layRun, problems []string) string { return "" }
+// c11Deviation: KF-C11-1 - a declaration whose doc comment is a multi-line block comment followed by a
+// //go:generate line in the same comment group loses its doc comment (and nothing else is wrong).
+func c11Deviation(r *layRun, problems []string) string {
+	if len(problems) != 1 || !strings.HasPrefix(problems[0], "output items") {
+		return ""
+	}
+	var want, got []layOut
+	want = r.l.Out
+	got = r.obs.Items
+	if len(want) != len(got) {
+		return ""
+	}
+	culprit := false
+	for i := range want {
+		if want[i] == got[i] {
+			continue
+		}
+		// the only permitted difference: a blockvar+doc+generate declaration without its doc
+		ok := false
+		for _, it := range r.l.Layout.Items {
+			if it.ID == want[i].ID && it.K == "decl" && it.Form == "blockvar" && it.Doc && it.Gen &&
+				want[i].Doc && !got[i].Doc && want[i].K == got[i].K && want[i].Trail == got[i].Trail {
+				ok = true
+			}
+		}
+		if !ok {
+			return ""
+		}
+		culprit = true
+	}
+	if culprit {
+		return "block-doc-comment-with-generate-line-detached"
+	}
+	return ""
+}
 
 // C17: selection.
 func C17(c *core.Ctx) {
